@@ -132,7 +132,7 @@ fn c11_suite<S: ShortGroupSignatureScheme>(em: &mut Emitter, base: &mut Rng, sui
             mix = Mix { n_creds: 1, n_claims: 3, disclosed: vec![vec!["name".into()]], commitment: Some(2), range: Some(if suite == "bbs" { (Some(i64::MIN), None) } else { (None, Some(i64::MAX)) }), age: -3, ..Default::default() };
         }
         if k == 0 {
-            mix = Mix { n_creds: 2, n_claims: 4, disclosed: vec![vec!["city".into()], vec!["age".into()]], revocation: true, membership: true, equality: true, commitment: Some(2), range: Some((Some(0), Some(150))), verenc: Some((3, true)), ved: None, age: 40, shuffle: false, zero_ssn: false };
+            mix = Mix { n_creds: 2, n_claims: 4, disclosed: vec![vec!["city".into()], vec!["age".into()]], revocation: true, membership: true, equality: true, commitment: Some(2), range: Some((Some(0), Some(150))), verenc: Some((3, true)), ved: None, age: 40, shuffle: false, zero_ssn: false, same_issuer: false };
             mix.disclosed = vec![vec![], vec!["age".into()]];
         }
         if k == 1 {
@@ -414,12 +414,16 @@ fn c04_suite<S: ShortGroupSignatureScheme>(em: &mut Emitter, base: &mut Rng, sui
         let rng = &mut base.sub((2 * k + off) as u64);
         let mut mix = Mix::random(rng, k % 3 == 0);
         if k == 0 {
-            mix = Mix { n_creds: 2, n_claims: 4, disclosed: vec![vec![], vec!["age".into()]], revocation: true, membership: true, equality: true, commitment: Some(2), range: Some((Some(0), Some(150))), verenc: Some((3, false)), ved: Some(3), age: 40, shuffle: false, zero_ssn: false };
+            mix = Mix { n_creds: 2, n_claims: 4, disclosed: vec![vec![], vec!["age".into()]], revocation: true, membership: true, equality: true, commitment: Some(2), range: Some((Some(0), Some(150))), verenc: Some((3, false)), ved: Some(3), age: 40, shuffle: false, zero_ssn: false, same_issuer: false };
         }
         if k == 1 {
             // predicates on a claim that an equality statement ties across two credentials: the shared
             // response makes "which credential is referenced" invisible to every verification equation
             mix = Mix { n_creds: 2, n_claims: 4, disclosed: vec![vec![], vec![]], equality: true, commitment: Some(1), verenc: Some((1, false)), membership: true, age: 40, ..Default::default() };
+        }
+        if k == 4 {
+            // two credentials of one issuer: the second signature statement carries the same issuer data again
+            mix = Mix { n_creds: 2, n_claims: 4, disclosed: vec![vec![], vec!["age".into()]], revocation: true, commitment: Some(2), age: 40, same_issuer: true, ..Default::default() };
         }
         let mut scn = Scn::<S>::build(rng, &mix);
         // k == 2, 3: the credential schema has its identifier claim at position 1 / last (not first)
